@@ -15,12 +15,12 @@ Proof.
   - econstructor; eauto.
 Qed.
 
-(* the node a report is for: the satisfying scalar (HVal), the value under
+(* the node a report is for: the satisfying scalar (HValue), the value under
    the satisfying key (HKey) *)
 Definition resolves_to (lit : string -> outcome litres) (re_search : string -> string -> outcome reres)
            (tm : terms) (d : node) (h : hit) : Prop :=
   match h_kind h with
-  | HVal => exists i v, reach d (h_loc h) (NLeaf i v) /\ satisfies lit re_search tm v
+  | HValue => exists i v, reach d (h_loc h) (NLeaf i v) /\ satisfies lit re_search tm v
   | HKey => exists l0 kn m, h_loc h = (l0 ++ [key_ref kn])%list /\ reach d (h_loc h) m /\
                             satisfies lit re_search tm (key_val kn)
   | _ => True
